@@ -608,6 +608,15 @@ def make_sampled_cfg(seed, i):
     r3 = np.random.default_rng([int(seed), NUM, int(i), 5])
     if r3.random() < 0.2:
         cfg["args"]["print_progress"] = True
+    if r3.random() < 0.15 and not cfg["args"].get("scaling_within_bounds"):
+        # scaling requested where it cannot apply (no bounds / one-sided bounds / projections): documented to be ignored with a warning
+        cfg["args"]["scaling_within_bounds"] = True
+        if cfg.get("lower") is not None and cfg.get("upper") is not None and not cfg.get("proj"):
+            if r3.random() < 0.5:
+                cfg["upper"] = None
+            else:
+                cfg["lower"] = None
+        cfg["_scaling_ignored"] = True
     if r3.random() < 0.2:
         cfg["args"]["do_logging"] = False
     return cfg
